@@ -81,8 +81,11 @@ class Program(object):
         # items renamed / moved since the reference tree are given their reference names back (zx/renorm.py)
         raws = renorm.normalise_all(texts, tag)
         self.renames = [r for r in renorm.APPLIED if r[0] == tag]
+        self.arg_perm = dict((k[1], v) for k, v in renorm.ARG_PERM.items() if k[0] == tag)
         for c in order:
             self._add(raws[c])
+        renorm.align_members(self, tag)
+        self.renames = [r for r in renorm.APPLIED if r[0] == tag]
         self._impl_ix = {}
         for im in self.impls:
             for ti, ii in im["items"].items():
